@@ -293,6 +293,13 @@ pub fn cap(id: u16) {
 pub fn snap(id: u16, r: &Rv) {
     log(K::Snap, id, &enc_rv(r));
 }
+/// The same observation through a mutable borrow: only compiles if the name was bound with `let mut`.
+pub fn snapm(id: u16, r: &mut Rv) {
+    log(K::Snap, id, &enc_rv(r));
+}
+pub fn snapmo(id: u16, o: &mut Ov) {
+    log(K::Snap, id, &enc_ov(o));
+}
 
 /// Anything that can be handed to a handler.
 pub trait Arg {
